@@ -111,7 +111,17 @@ Proof.
   { destruct x as [sx|sx| |sx mx ex]; try (intros E; injection E as <-; reflexivity).
     destruct sx; intros E; injection E as <-; [reflexivity|]. exact (valid_fsqrt _ Hx). }
   destruct (is_integer y); [|discriminate]. cbv zeta.
-  destruct (Z.abs (to_Z y) <=? _); [|discriminate].
+  destruct (Z.abs (to_Z y) <=? _);
+    [|destruct x as [sx|sx| |sx mx ex];
+      [destruct (0 <? to_Z y); intros E; injection E as <-; reflexivity
+      |destruct (0 <? to_Z y); intros E; injection E as <-; reflexivity
+      |intros E; injection E as <-; reflexivity
+      |destruct (same_f64 _ fone);
+        [intros E; injection E as <-; destruct (_ && _); reflexivity|];
+       destruct (fleb _ _);
+        [intros E; injection E as <-; destruct (0 <? to_Z y); reflexivity|];
+       destruct (fleb _ _); [|discriminate];
+       intros E; injection E as <-; destruct (0 <? to_Z y); reflexivity]].
   destruct x as [sx|sx| |sx mx ex].
   - destruct (0 <? to_Z y); intros E; injection E as <-; reflexivity.
   - destruct (0 <? to_Z y); intros E; injection E as <-; reflexivity.
@@ -119,7 +129,7 @@ Proof.
   - (* the candidate result [r] is valid; the exactness test only decides whether it is returned *)
     match goal with |- match ?r with _ => _ end = Some z -> _ => assert (Hr : valid r); [|destruct r as [s0|s0| |s0 m0 e0] eqn:Er] end.
     + destruct (0 <? to_Z y); [apply valid_fnorm|].
-      destruct (Z.pos mx ^ Z.abs (to_Z y)); try reflexivity. apply valid_fdiv_fin.
+      destruct (_ && _); [apply valid_fnorm|reflexivity].
     + discriminate.
     + intros E; injection E as <-. reflexivity.
     + discriminate.
